@@ -207,6 +207,16 @@ fn guarded<T>(f: impl FnOnce() -> T) -> Caught<T> {
     }
 }
 
+/// `Error::source()`: the original `io::Error` (same kind) for `Error::Io`, nothing for format errors (C14: the source
+/// error is preserved).  Empty when that holds, a marker that no model prints otherwise.
+fn src_mark(src: Option<&(dyn std::error::Error + 'static)>, inner: Option<std::io::ErrorKind>) -> &'static str {
+    let ok = match inner {
+        Some(k) => src.and_then(|s| s.downcast_ref::<std::io::Error>()).map_or(false, |x| x.kind() == k),
+        None => src.is_none(),
+    };
+    if ok { "" } else { "!src" }
+}
+
 // ---------------------------------------------------------------- FASTA
 
 fn fa_err(e: &fasta::Error) -> String {
@@ -215,6 +225,8 @@ fn fa_err(e: &fasta::Error) -> String {
         fasta::Error::InvalidStart { line, found } => format!("is.{}.{}", line, found),
         fasta::Error::BufferLimit => "bl".to_string(),
     };
+    let inner = if let fasta::Error::Io(i) = e { Some(i.kind()) } else { None };
+    let body = body + src_mark(std::error::Error::source(e), inner);
     format!("E:{}/m={}", body, hex(e.to_string().as_bytes()))
 }
 
@@ -271,7 +283,27 @@ fn fa_rec(r: &fasta::RefRecord) -> String {
 }
 
 fn fa_owned(r: &fasta::OwnedRecord) -> String {
-    format!("h={}:s={}", hex(&r.head), hex(&r.seq))
+    use fasta::Record;
+    // the owned copy seen through the `Record` trait must expose the values of its fields (C13)
+    let (idb, descb) = r.id_desc_bytes();
+    let sp = r.head.iter().position(|&b| b == b' ');
+    let mut w = ShortWriter::new(2);
+    r.write(&mut w).unwrap();
+    let mut expect = vec![b'>'];
+    expect.extend_from_slice(&r.head);
+    expect.push(b'\n');
+    expect.extend_from_slice(&r.seq);
+    expect.push(b'\n');
+    let ok = Record::head(r) == &r.head[..]
+        && Record::seq(r) == &r.seq[..]
+        && idb == r.id_bytes()
+        && descb == r.desc_bytes()
+        && idb == &r.head[..sp.unwrap_or(r.head.len())]
+        && descb == sp.map(|i| &r.head[i + 1..])
+        && r.id().is_ok() == std::str::from_utf8(idb).is_ok()
+        && r.desc().map(|d| d.is_ok()) == descb.map(|d| std::str::from_utf8(d).is_ok())
+        && w.out == expect;
+    format!("h={}:s={}{}", hex(&r.head), hex(&r.seq), if ok { "" } else { "!views" })
 }
 
 fn json_roundtrip<T: serde::Serialize + serde::de::DeserializeOwned>(set: &T, dump: impl Fn(&T) -> String) -> String {
@@ -348,7 +380,10 @@ pub fn run_fasta(c: &Case) -> String {
                 let set = &sets[*j];
                 guarded(|| {
                     let recs: Vec<String> = set.into_iter().map(|r| fa_rec(&r)).collect();
-                    format!("I:{}", recs.join("/"))
+                    match iter_contract(set.into_iter(), recs.len(), set.len()) {
+                        None => format!("I:{}", recs.join("/")),
+                        Some(bad) => format!("I!{}:{}", bad, recs.join("/")),
+                    }
                 })
             }
             Op::Pos => guarded(|| match rdr.position() {
@@ -364,21 +399,22 @@ pub fn run_fasta(c: &Case) -> String {
             }),
             Op::SeekSlot(k) => match slots[*k].clone() {
                 None => Caught::Ok("K?".to_string()),
-                Some(p) => guarded(|| match rdr.seek(&p) {
+                Some(p) => guarded(|| match { let a0 = crate::alloc::count(); let r = rdr.seek(&p); op_allocs = crate::alloc::count() - a0; r } {
                     Ok(()) => "K".to_string(),
                     Err(e) => fa_err(&e),
                 }),
             },
             Op::SeekTo(l, b) => {
                 let p = fasta::Position::new(*l, *b);
-                guarded(|| match rdr.seek(&p) {
+                guarded(|| match { let a0 = crate::alloc::count(); let r = rdr.seek(&p); op_allocs = crate::alloc::count() - a0; r } {
                     Ok(()) => "K".to_string(),
                     Err(e) => fa_err(&e),
                 })
             }
             Op::SetPolicy(p) => {
                 rdr = rdr.set_policy(DynPolicy::new(p.clone(), log.clone()));
-                Caught::Ok("Y".to_string())
+                // `policy()` hands out the policy that was installed
+                Caught::Ok(if rdr.policy().desc() == p { "Y".to_string() } else { "Y!policy".to_string() })
             }
             Op::Json(j) => {
                 let set = &sets[*j];
@@ -393,7 +429,16 @@ pub fn run_fasta(c: &Case) -> String {
         let grew = log.borrow().len() != log_len;
         log_len = log.borrow().len();
         let sfx = if grew { format!("#{}", log_len) } else { String::new() };
-        let sfx = if c.kind == "A" { format!("{}@{}", sfx, op_allocs) } else { sfx };
+        let sfx = if c.kind == "A" {
+            // allocator calls of the measured reader call, and the capacity of the record set's buffer afterwards
+            let cap = match op {
+                Op::Set(j) | Op::Exact(j, _) | Op::Shrink(j) => format!("^{}", sets[*j].buf_capacity()),
+                _ => String::new(),
+            };
+            format!("{}@{}{}", sfx, op_allocs, cap)
+        } else {
+            sfx
+        };
         match res {
             Caught::Ok(s) => out.push(s + &sfx),
             Caught::Panic => {
@@ -425,6 +470,8 @@ fn fq_err(e: &fastq::Error) -> String {
         fastq::Error::UnexpectedEnd { pos } => format!("ue.{}", fq_pos(pos)),
         fastq::Error::BufferLimit => "bl".to_string(),
     };
+    let inner = if let fastq::Error::Io(i) = e { Some(i.kind()) } else { None };
+    let body = body + src_mark(std::error::Error::source(e), inner);
     format!("E:{}/m={}", body, hex(e.to_string().as_bytes()))
 }
 
@@ -466,7 +513,29 @@ fn fq_rec(r: &fastq::RefRecord) -> String {
 }
 
 fn fq_owned(r: &fastq::OwnedRecord) -> String {
-    format!("h={}:s={}:q={}", hex(&r.head), hex(&r.seq), hex(&r.qual))
+    use fastq::Record;
+    let (idb, descb) = r.id_desc_bytes();
+    let sp = r.head.iter().position(|&b| b == b' ');
+    let mut w = ShortWriter::new(2);
+    r.write(&mut w).unwrap();
+    let mut expect = vec![b'@'];
+    expect.extend_from_slice(&r.head);
+    expect.push(b'\n');
+    expect.extend_from_slice(&r.seq);
+    expect.extend_from_slice(b"\n+\n");
+    expect.extend_from_slice(&r.qual);
+    expect.push(b'\n');
+    let ok = Record::head(r) == &r.head[..]
+        && Record::seq(r) == &r.seq[..]
+        && Record::qual(r) == &r.qual[..]
+        && idb == r.id_bytes()
+        && descb == r.desc_bytes()
+        && idb == &r.head[..sp.unwrap_or(r.head.len())]
+        && descb == sp.map(|i| &r.head[i + 1..])
+        && r.id().is_ok() == std::str::from_utf8(idb).is_ok()
+        && r.desc().map(|d| d.is_ok()) == descb.map(|d| std::str::from_utf8(d).is_ok())
+        && w.out == expect;
+    format!("h={}:s={}:q={}{}", hex(&r.head), hex(&r.seq), hex(&r.qual), if ok { "" } else { "!views" })
 }
 
 pub fn run_fastq(c: &Case) -> String {
@@ -536,7 +605,10 @@ pub fn run_fastq(c: &Case) -> String {
                 let set = &sets[*j];
                 guarded(|| {
                     let recs: Vec<String> = set.into_iter().map(|r| fq_rec(&r)).collect();
-                    format!("I:{}", recs.join("/"))
+                    match iter_contract(set.into_iter(), recs.len(), set.len()) {
+                        None => format!("I:{}", recs.join("/")),
+                        Some(bad) => format!("I!{}:{}", bad, recs.join("/")),
+                    }
                 })
             }
             Op::Pos => guarded(|| {
@@ -551,21 +623,22 @@ pub fn run_fastq(c: &Case) -> String {
             }),
             Op::SeekSlot(k) => match slots[*k].clone() {
                 None => Caught::Ok("K?".to_string()),
-                Some(p) => guarded(|| match rdr.seek(&p) {
+                Some(p) => guarded(|| match { let a0 = crate::alloc::count(); let r = rdr.seek(&p); op_allocs = crate::alloc::count() - a0; r } {
                     Ok(()) => "K".to_string(),
                     Err(e) => fq_err(&e),
                 }),
             },
             Op::SeekTo(l, b) => {
                 let p = fastq::Position::new(*l, *b);
-                guarded(|| match rdr.seek(&p) {
+                guarded(|| match { let a0 = crate::alloc::count(); let r = rdr.seek(&p); op_allocs = crate::alloc::count() - a0; r } {
                     Ok(()) => "K".to_string(),
                     Err(e) => fq_err(&e),
                 })
             }
             Op::SetPolicy(p) => {
                 rdr = rdr.set_policy(DynPolicy::new(p.clone(), log.clone()));
-                Caught::Ok("Y".to_string())
+                // `policy()` hands out the policy that was installed
+                Caught::Ok(if rdr.policy().desc() == p { "Y".to_string() } else { "Y!policy".to_string() })
             }
             Op::Json(j) => {
                 let set = &sets[*j];
@@ -580,7 +653,16 @@ pub fn run_fastq(c: &Case) -> String {
         let grew = log.borrow().len() != log_len;
         log_len = log.borrow().len();
         let sfx = if grew { format!("#{}", log_len) } else { String::new() };
-        let sfx = if c.kind == "A" { format!("{}@{}", sfx, op_allocs) } else { sfx };
+        let sfx = if c.kind == "A" {
+            // allocator calls of the measured reader call, and the capacity of the record set's buffer afterwards
+            let cap = match op {
+                Op::Set(j) | Op::Exact(j, _) | Op::Shrink(j) => format!("^{}", sets[*j].buf_capacity()),
+                _ => String::new(),
+            };
+            format!("{}@{}{}", sfx, op_allocs, cap)
+        } else {
+            sfx
+        };
         match res {
             Caught::Ok(s) => out.push(s + &sfx),
             Caught::Panic => {
@@ -680,4 +762,33 @@ fn run_path(c: &Case) -> String {
         Caught::Hang => out.push("HANG".to_string()),
     }
     out.join(";")
+}
+
+/// Iterator contract of a record-set iterator (C20), judged on the iterator alone: before each of the `n` items
+/// and after the last one the size hint brackets the number of items still to come, the number of items is the
+/// set's `len()`, and after the end the iterator keeps reporting the end.  `None` = contract holds.
+fn iter_contract<I: Iterator>(mut it: I, n: usize, len: usize) -> Option<String> {
+    if n != len {
+        return Some(format!("len.{}.{}", len, n));
+    }
+    for k in 0..=n {
+        let rem = n - k;
+        let (lo, hi) = it.size_hint();
+        if lo > rem || hi.map_or(false, |h| h < rem) {
+            return Some(format!("hint.{}.{}.{}", lo, hi.map_or("-".to_string(), |h| h.to_string()), rem));
+        }
+        if it.next().is_some() != (k < n) {
+            return Some(format!("count.{}", k));
+        }
+    }
+    for _ in 0..3 {
+        if it.next().is_some() {
+            return Some("unfused".to_string());
+        }
+        let (lo, _) = it.size_hint();
+        if lo > 0 {
+            return Some(format!("hint.{}.-.0", lo));
+        }
+    }
+    None
 }
